@@ -77,6 +77,7 @@ type nestedCase struct {
 	sz      int
 	how     int
 	fresh   func() interface{} // empty message of the same type for decoding (nil for doubles)
+	other   func() interface{} // a message of the same type holding other data (nil when not available)
 }
 
 func classify(m interface{}) int {
@@ -117,20 +118,23 @@ func genNested(r *prng.Rng) nestedCase {
 	case 5:
 		nc = nestedCase{flavour: "double/Marshaler-wrong-Size", msg: &dblM{body: randBody(), size: r.Intn(300)}}
 	case 6:
-		nc = nestedCase{flavour: "googlev2/wellknown", msg: timestamppb.New(timeFrom(r)), fresh: func() interface{} { return &timestamppb.Timestamp{} }}
+		nc = nestedCase{flavour: "googlev2/wellknown", msg: timestamppb.New(timeFrom(r)), fresh: func() interface{} { return &timestamppb.Timestamp{} },
+			other: func() interface{} { return &timestamppb.Timestamp{Seconds: 77, Nanos: 99} }}
 		if r.Bool() {
 			nc.msg, nc.fresh = wrapperspb.String(string(asciiBytes(r, r.Intn(30)))), func() interface{} { return &wrapperspb.StringValue{} }
 		} else if r.Bool() {
 			nc.msg, nc.fresh = &durationpb.Duration{}, func() interface{} { return &durationpb.Duration{} } // empty message
 		}
 	case 7:
-		nc = nestedCase{flavour: "gogo/plain", msg: &gogotypes.Timestamp{Seconds: int64(r.U64Interesting() >> 1), Nanos: int32(r.Intn(1e9))}, fresh: func() interface{} { return &gogotypes.Timestamp{} }}
+		nc = nestedCase{flavour: "gogo/plain", msg: &gogotypes.Timestamp{Seconds: int64(r.U64Interesting() >> 1), Nanos: int32(r.Intn(1e9))}, fresh: func() interface{} { return &gogotypes.Timestamp{} },
+			other: func() interface{} { return &gogotypes.Timestamp{Seconds: 77, Nanos: 99} }}
 		if r.Chance(1, 4) {
 			nc.msg = &gogotypes.Timestamp{}
 		}
 	case 8:
 		name, val := string(asciiBytes(r, r.Intn(20))), string(asciiBytes(r, r.Intn(20)))
-		nc = nestedCase{flavour: "googlev1/plain", msg: &dto.LabelPair{Name: &name, Value: &val}, fresh: func() interface{} { return &dto.LabelPair{} }}
+		nc = nestedCase{flavour: "googlev1/plain", msg: &dto.LabelPair{Name: &name, Value: &val}, fresh: func() interface{} { return &dto.LabelPair{} },
+			other: func() interface{} { n, v := "old-name", "old-value"; return &dto.LabelPair{Name: &n, Value: &v} }}
 		if r.Chance(1, 4) {
 			nc.msg = &dto.LabelPair{}
 		}
@@ -145,7 +149,8 @@ func genNested(r *prng.Rng) nestedCase {
 		if r.Chance(1, 6) {
 			ev = &exv2.EmbeddedEvent{}
 		}
-		nc = nestedCase{flavour: "googlev2/fast-marshal", msg: ev, fresh: func() interface{} { return &exv2.EmbeddedEvent{} }}
+		nc = nestedCase{flavour: "googlev2/fast-marshal", msg: ev, fresh: func() interface{} { return &exv2.EmbeddedEvent{} },
+			other: func() interface{} { return &exv2.EmbeddedEvent{ID: 31, Stuff: "old", FavoriteNumbers: []int32{9, 9}} }}
 	}
 	nc.how = classify(nc.msg)
 	nc.sz = csproto.Size(nc.msg)
@@ -321,6 +326,19 @@ func nestedCaseRun(c *fw.Ctx) {
 			if err != nil || !bytes.Equal(b2, nc.body) || d.Offset() != nestedEnd {
 				dout = "real-decode-mismatch"
 				c.Violate(fw.Violation{Stream: "decode-nested", Signature: "decode/real-equal/" + nc.flavour, What: "decoded message is not equal to the one encoded", Input: desc, Expected: hexs(nc.body), Got: hexs(b2)})
+			}
+		}
+	}
+	// … and into a message of that type that already holds other data: still an equal message
+	if nc.fresh != nil && nc.other != nil && dout == "ok" {
+		d := csproto.NewDecoder(in)
+		d.Seek(int64(nestedStart), 0)
+		d.DecodeTag()
+		m3 := nc.other()
+		if err := d.DecodeNested(m3); err == nil {
+			if b3, err := csproto.Marshal(m3); err != nil || !bytes.Equal(b3, nc.body) {
+				dout = "real-decode-into-used-mismatch"
+				c.Violate(fw.Violation{Stream: "decode-nested", Signature: "decode/real-into-used/" + nc.flavour, What: "DecodeNested into a message that already holds data does not yield a message equal to the one encoded", Input: desc, Expected: hexs(nc.body), Got: hexs(b3)})
 			}
 		}
 	}
